@@ -72,7 +72,6 @@ func (f *zc33FakeS3) ServeHTTP(w http.ResponseWriter, r *http.Request) {
 type zc33Stream struct {
 	Pos    int
 	blocks int
-	buf    []byte
 }
 
 func zc33Cap(i int) int {
@@ -103,16 +102,12 @@ func (s *zc33Stream) block(k int) []byte {
 }
 
 func (s *zc33Stream) Read(p []byte) (int, error) {
-	for len(s.buf) < len(p) {
+	// every Read starts at a fresh block, so a reader never sees part of an earlier block
+	for off := 0; off < len(p); off += 16 {
 		s.blocks++
-		s.buf = append(s.buf, s.block(s.blocks)...)
+		copy(p[off:], s.block(s.blocks))
 	}
-	n := copy(p, s.buf)
-	s.buf = s.buf[n:]
-	if len(p)%16 == 0 {
-		s.buf = nil // whole blocks only: never let a reader straddle two blocks
-	}
-	return n, nil
+	return len(p), nil
 }
 
 func (s *zc33Stream) name() string {
@@ -153,6 +148,16 @@ func TestVerif_C33_S3(t *testing.T) {
 	phases := venum.QT([]time.Duration{0, 999}, []time.Duration{0, 500, 999})
 	positions := venum.QT([]int{15, -1}, []int{0, 15, -1})
 	realRand := rand.Reader
+	// The storages are built by the REAL constructor, once per process and prefix
+	// (config.LoadDefaultConfig costs ~12 ms); every execution works on its own copy.
+	tmpl := map[string]*S3Storage{}
+	for _, p := range []string{"", "p/"} {
+		st, err := NewS3Storage("bkt", S3Config{Prefix: p, Region: "us-east-1", EndpointURL: srv.URL})
+		if err != nil {
+			t.Fatalf("NewS3Storage: %v", err)
+		}
+		tmpl[p] = st
+	}
 
 	venum.Explore(t, venum.Cfg{Name: "s3-upload-sequences", Shardable: true, DevBound: -1, CheckDeterminism: true}, func(x *venum.X) {
 		cfgSel := x.Choose(2*len(phases)*len(positions), "config(prefix x clock-phase x entropy-stream)")
@@ -164,11 +169,8 @@ func TestVerif_C33_S3(t *testing.T) {
 		fake.reset()
 		vsched.FreezeClock(base.Add(phase))
 		defer vsched.UnfreezeClock()
-		st, err := NewS3Storage("bkt", S3Config{Prefix: prefix, Region: "us-east-1", EndpointURL: srv.URL})
-		if err != nil {
-			venum.EngineError("NewS3Storage: %v", err)
-			return
-		}
+		stv := *tmpl[prefix] // fresh value per execution (the type holds no mutable state)
+		st := &stv
 		wantPrefix := prefix
 		if wantPrefix == "" {
 			wantPrefix = "vgi-rpc/"
@@ -184,7 +186,7 @@ func TestVerif_C33_S3(t *testing.T) {
 			d := x.Deviate(len(zc33Steps), fmt.Sprintf("clock-before-upload-%d", i))
 			vsched.Advance(zc33Steps[d])
 			at := vsched.Now()
-			payload := fmt.Sprintf("payload-%d", i)
+			payload := "same-payload" // identical data is the worst case for a key derived from the data
 			enc := []string{"", "zstd"}[i%2]
 			before, b0 := len(fake.puts), stream.blocks
 			rand.Reader = stream
@@ -236,9 +238,9 @@ func TestVerif_C33_S3(t *testing.T) {
 					}
 				}
 				x.Failf("C33:s3:key-reused:"+class,
-					"uploads #%d and #%d (clock readings %d ns apart: %s vs %s; entropy blocks read: %d and %d) both wrote object key %q: payload-%d was overwritten by payload-%d",
+					"uploads #%d and #%d (clock readings %d ns apart: %s vs %s; entropy blocks read: %d and %d) both wrote object key %q: upload #%d overwrote the object written by upload #%d",
 					i, j, gap.Nanoseconds(), ups[i].at.Format("15:04:05.000000000"), ups[j].at.Format("15:04:05.000000000"),
-					ups[i].blocks, ups[j].blocks, ups[i].key, i, j)
+					ups[i].blocks, ups[j].blocks, ups[i].key, j, i)
 			}
 		}
 		// Outcome: what the code did, without the key text of a (possibly random) generator:
